@@ -35,6 +35,7 @@ Consumers == {"vcjwt", "vpjwt", "jar", "dpop", "apitoken", "dagtx-jwk", "dagtx-k
 Fams == {"p256", "p384", "p521", "ed25519", "rsa"}
 Dag == {"dagtx-jwk", "dagtx-kid"}
 SelfKeyed == {"dpop", "dagtx-jwk"}          \* the protocol mandates an embedded public key
+KeyHasMembers == SelfKeyed \cup {"vcjwt", "vpjwt", "jar", "ldproof"}   \* the key is a JWK from the token / a DID document / a key set
 NoKidHeader == SelfKeyed \cup {"ldproof"}   \* ldproof: the key id is proof.verificationMethod (part of the signed data)
 
 \* the algorithm a valid token of this consumer uses with a key of the family
@@ -60,8 +61,11 @@ Allowed(c) == CASE c = "apitoken" -> {"ES256", "ES384", "ES512", "EdDSA", "RS512
 (*  enc    canonical | {h,p,s}-pad | {h,p,s}-noncanon | s-stdalpha |       *)
 (*         extra-seg                                                       *)
 (***************************************************************************)
+(*  actual the algorithm the signature was REALLY made with:               *)
+(*         label (= the header's) | key-disallowed | key-other-allowed     *)
+(*         (= the one named by the alg member of the verification key)     *)
 D == [ser |-> "compact", nsig |-> 1, alg |-> "fit", signer |-> "legit", sigok |-> TRUE, keyref |-> "asvalid",
-      keyhdr |-> "asvalid", enc |-> "canonical"]
+      keyhdr |-> "asvalid", enc |-> "canonical", actual |-> "label"]
 VTab ==
     ("valid" :> D) @@
     ("alg-none" :> [D EXCEPT !.alg = "none", !.signer = "nobody", !.sigok = FALSE]) @@
@@ -90,6 +94,13 @@ VTab ==
     ("kid-lookalike-pre-resigned" :> [D EXCEPT !.keyref = "lookalike", !.signer = "attacker"]) @@
     ("kid-lookalike-frag-resigned" :> [D EXCEPT !.keyref = "lookalike", !.signer = "attacker"]) @@
     ("key-swapped" :> [D EXCEPT !.signer = "attacker"]) @@
+    \* the verification key (embedded jwk / published JWK) has an alg, use or key_ops member of its own; genuine signatures
+    \* by the legitimate key:  header alg allowed, key alg (= the one used) not allowed or not fitting the key;
+    \* header and key name different allowed algorithms; header alg not allowed, key alg allowed; key says "not for signing"
+    ("keyalg-disallowed-signed" :> [D EXCEPT !.actual = "key-disallowed"]) @@
+    ("keyalg-other-allowed-signed" :> [D EXCEPT !.actual = "key-other-allowed"]) @@
+    ("hdr-badlabel-keyalg-fit" :> [D EXCEPT !.alg = "badlabel"]) @@
+    ("key-members-contradict-signing" :> D) @@
     ("protected-altered" :> [D EXCEPT !.sigok = FALSE]) @@
     ("payload-altered" :> [D EXCEPT !.sigok = FALSE]) @@
     ("sig-altered" :> [D EXCEPT !.sigok = FALSE]) @@
@@ -107,6 +118,10 @@ AttackerRef == {"attacker-known", "lookalike"}      \* key references that resol
 Applicable(c, f, v) ==
     CASE v \in {"alg-sibling", "legit-alg-mismatch"} -> f # "ed25519"
       [] v = "own-private-key-embedded" -> c \in SelfKeyed
+      [] v = "keyalg-disallowed-signed" -> c \in KeyHasMembers /\ f # "ed25519"
+      [] v = "keyalg-other-allowed-signed" -> c \in KeyHasMembers /\ f = "rsa"
+      [] v = "hdr-badlabel-keyalg-fit" -> c \in KeyHasMembers \ {"ldproof"}     \* an LD proof verifier never reads the header label
+      [] v = "key-members-contradict-signing" -> c \in KeyHasMembers
       [] v = "kid-other-party" -> c \notin SelfKeyed
       [] v = "kid-attacker-resigned" -> c \notin SelfKeyed \cup {"apitoken"}   \* the attacker's key is not in authorized_keys
       [] v \in Lookalikes -> c \in {"vcjwt", "vpjwt", "jar", "dagtx-kid", "ldproof"}   \* consumers that bind a key id to a DID
@@ -119,7 +134,7 @@ Applicable(c, f, v) ==
 Fits(f, a) == ~(a.alg = "mismatch" /\ f # "rsa")
 LabelAllowed(c, f, a) ==
     CASE a.alg = "fit" -> FitAlg(c, f) \in Allowed(c)
-      [] a.alg \in {"none", "mac"} -> FALSE
+      [] a.alg \in {"none", "mac", "badlabel"} -> FALSE
       [] a.alg = "mismatch" -> f # "rsa"
       [] OTHER -> TRUE          \* otherfam / sibling: labels taken from the allow-list
 HPEnc == {"h-pad", "p-pad", "h-noncanon", "p-noncanon", "extra-seg"}   \* the received header/payload TEXT is not what was signed
@@ -181,6 +196,7 @@ SelectKey ==
 \* the signature verifies with the selected key
 SigVerifies ==
     /\ A.sigok /\ A.signer = key
+    /\ A.actual = "label"                               \* the verifier uses the algorithm of the protected header
     /\ A.alg \notin {"none", "mac", "otherfam"}
     /\ (A.alg = "sibling" => FALSE)                      \* made with a key of another curve / hash than the selected key allows
     /\ (Fits(F, A) \/ (CurveBlindES /\ C # "ldproof"))
@@ -206,7 +222,7 @@ Spec == Init /\ [][Next]_vars
 Sound(c, f, a) ==
     /\ a.nsig = 1                                                   \* exactly one signature
     /\ LabelAllowed(c, f, a) /\ a.alg \notin {"none", "mac"}        \* allowed asymmetric algorithm
-    /\ Fits(f, a)                                                   \* ... that fits the verification key
+    /\ Fits(f, a) /\ a.actual # "key-disallowed"                    \* ... that fits the verification key (the one really used)
     /\ a.sigok /\ a.enc \notin HPEnc                                \* verified over the exact bytes received
     /\ a.keyhdr \notin {"jwk-private", "jwk-private-own"}          \* embedded private keys are refused
     /\ \/ a.signer = "legit"                                        \* key taken from where the protocol says
